@@ -143,15 +143,23 @@ def save_replay(prop, payload):
 
 
 def validate_evidence(ev):
-    try:
-        import jsonschema
-    except Exception:
-        return
+    """Validates against the evidence schema (in-process if jsonschema is importable, else through python3-vt)."""
     schema_path = "/root/.vp/EVIDENCE.schema.json"
     if not os.path.exists(schema_path):
-        schema_path = os.path.join(VERIF, "vlib", "EVIDENCE.schema.json")
-    if os.path.exists(schema_path):
+        return
+    try:
+        import jsonschema
         jsonschema.validate(ev, json.load(open(schema_path)))
+        return
+    except ImportError:
+        pass
+    vt = shutil.which("python3-vt")
+    if not vt:
+        return
+    p = subprocess.run([vt, "-c", "import json,sys,jsonschema; jsonschema.validate(json.load(sys.stdin), json.load(open(sys.argv[1])))", schema_path],
+                       input=json.dumps(ev), text=True, stdout=subprocess.PIPE, stderr=subprocess.PIPE)
+    if p.returncode != 0:
+        raise MachineryError("evidence does not validate against the schema: " + p.stderr[-800:])
 
 
 def sha_tree(paths):
